@@ -155,7 +155,61 @@ def shape_label(t):
 # ---------------------------------------------------------------------------------------------
 # cases
 # ---------------------------------------------------------------------------------------------
-def make_case(rng, tree, tree_ix, kind, path, filt="random", ages=None):
+def make_history(rng, base, ops=None):
+    """A tree with a (possibly stale) bipartition encoding: `base` gets taxa on (most of) its tips, its
+    bipartitions are encoded, then tips are grafted on / cut off WITHOUT refreshing the bipartitions.
+    Everything is computed on the spec tree alone; returns (final spec tree renumbered in pre-order, hist)."""
+    import copy
+    base = copy.deepcopy(base)
+    ntax = 0
+    for lf in trees.leaves(base):
+        if rng.random() < 0.8:
+            lf["taxon"] = ntax
+            ntax += 1
+    cur = copy.deepcopy(base)
+    next_id = 1 + max(nd["id"] for nd in trees.preorder(cur))
+    if ops is None:
+        ops = [["encode"]]
+        for _ in range(rng.randint(1, 3)):
+            r = rng.random()
+            if r < 0.5:
+                ops.append(["add", rng.choice(trees.preorder(cur))["id"], None, rng.random() < 0.7])
+            elif r < 0.9:
+                ops.append(["del", None])
+            else:
+                ops.append(["encode"])
+            apply_spec_op(rng, cur, ops[-1], [next_id + len(ops), ntax + len(ops)])
+    else:
+        ops = [list(o) for o in ops]
+        for i, o in enumerate(ops):
+            apply_spec_op(rng, cur, o, [next_id + i, ntax + i])
+    ops = [o for o in ops if o[0] != "skip"]
+    relabel = [[nd["id"], i] for i, nd in enumerate(trees.preorder(cur))]
+    final = renumber(copy.deepcopy(cur))
+    return final, {"base": base, "ops": ops, "relabel": relabel}
+
+
+def apply_spec_op(rng, cur, op, fresh):
+    """apply one history step to the spec tree; fills in the ids the step uses"""
+    if op[0] == "add":
+        new_id, tx = fresh
+        parent = [nd for nd in trees.preorder(cur) if nd["id"] == op[1]][0]
+        op[2] = new_id
+        op[3] = tx if op[3] not in (False, None) else None
+        parent["kids"].append({"id": new_id, "taxon": op[3], "label": None, "len": None, "kids": []})
+    elif op[0] == "del":
+        cands = [(p, k) for p in trees.preorder(cur) for k in p["kids"] if not k["kids"]]
+        if op[1] is not None:
+            cands = [(p, k) for p, k in cands if k["id"] == op[1]]
+        if not cands:
+            op[0] = "skip"
+            return
+        p, k = rng.choice(cands)
+        op[1] = k["id"]
+        p["kids"].remove(k)
+
+
+def make_case(rng, tree, tree_ix, kind, path, filt="random", ages=None, hist=None):
     name, level, meth, flags, takes_filter, elem = KIND[kind]
     n = size(tree)
     case = {"tree_ix": tree_ix, "tree": tree, "kind": kind, "start": list(path) if level == "N" else [],
@@ -174,17 +228,22 @@ def make_case(rng, tree, tree_ix, kind, path, filt="random", ages=None):
         else:
             hi = rng.choice([1, 2, 3, max(2, n)])
             case["ages"] = [rng.randint(0, hi) for _ in range(n)]
+    if hist is not None:
+        case["hist"] = hist
+        if case["calc_ages"]:
+            case["calc_ages"] = False
+            case["ages"] = [rng.randint(0, 3) for _ in range(n)]
     return case
 
 
-def cases_for_tree(rng, tree, tree_ix, starts, filt="random"):
+def cases_for_tree(rng, tree, tree_ix, starts, filt="random", hist=None):
     out = []
     for k in KINDS:
         if k[1] == "T":
-            out.append(make_case(rng, tree, tree_ix, k[0], [], filt))
+            out.append(make_case(rng, tree, tree_ix, k[0], [], filt, hist=hist))
         else:
             for p in starts:
-                out.append(make_case(rng, tree, tree_ix, k[0], p, filt))
+                out.append(make_case(rng, tree, tree_ix, k[0], p, filt, hist=hist))
     return out
 
 
@@ -216,6 +275,30 @@ class Runaway(Exception):
     pass
 
 
+def build_with_history(hist):
+    """the dendropy tree after the history: built from the base tree (tips with taxa), bipartitions
+    encoded without touching the structure, tips grafted on / cut off without updating them"""
+    base, ops = hist["base"], hist["ops"]
+    ntax = 1 + max([-1] + [nd["taxon"] for nd in trees.preorder(base) if nd["taxon"] is not None]
+                   + [o[3] for o in ops if o[0] == "add" and o[3] is not None])
+    ns, objs = trees.make_namespace(ntax)
+    tree, by_old = trees.build_dendropy(base, objs, namespace=ns)
+    for o in ops:
+        if o[0] == "encode":
+            tree.encode_bipartitions(suppress_unifurcations=False, collapse_unrooted_basal_bifurcation=False)
+        elif o[0] == "add":
+            kw = {} if o[3] is None else {"taxon": objs[o[3]]}
+            by_old[o[2]] = by_old[o[1]].new_child(**kw)
+        elif o[0] == "del":
+            nd = by_old.pop(o[1])
+            nd._parent_node.remove_child(nd)
+    by_id = {}
+    for old, new in hist["relabel"]:
+        by_old[old]._dv_id = new
+        by_id[new] = by_old[old]
+    return tree, by_id
+
+
 def observe(case):
     import dendropy
     from dendropy.utility import deprecate
@@ -237,7 +320,10 @@ def observe(case):
             for k in nd["kids"]:
                 setlen(k, nd["_h"])
         setlen(tree_units, None)
-    tree, by_id = trees.build_dendropy(tree_units, taxon_objs={})
+    if case.get("hist"):
+        tree, by_id = build_with_history(case["hist"])
+    else:
+        tree, by_id = trees.build_dendropy(tree_units, taxon_objs={})
     if case["ages"] is not None:
         for i, nd in by_id.items():
             nd.age = case["ages"][i]
@@ -437,8 +523,18 @@ def oracle(case, obs):
     if [obs["out"], obs["err"]] != [exp[0], exp[1]]:
         meth = KIND[case["kind"]][2]
         lvl = "Tree" if KIND[case["kind"]][1] == "T" else "Node"
-        what = ("%s.%s on tree %s, start node %s, flags %s, filter %s: visited %s%s, the defining order is %s%s"
-                % (lvl, meth, trees.newick(label_ids(case["tree"]), with_len=False), node_at(case["tree"], case["start"])["id"],
+        how = ""
+        if case.get("hist"):
+            h = case["hist"]
+            how = " (reached from %s by %s; ids renamed %s)" % (
+                trees.newick(label_ids(h["base"]), with_len=False),
+                ", ".join("encode_bipartitions" if o[0] == "encode" else
+                          "new_child under %d%s" % (o[1], "" if o[3] is None else " with a taxon") if o[0] == "add"
+                          else "remove leaf %d" % o[1] for o in h["ops"]),
+                [p for p in h["relabel"] if p[0] != p[1]])
+        what = ("%s.%s on tree %s%s, start node %s, flags %s, filter %s: visited %s%s, the defining order is %s%s"
+                % (lvl, meth, trees.newick(label_ids(case["tree"]), with_len=False), how,
+                   node_at(case["tree"], case["start"])["id"],
                    case["flags"], case["filter"], obs["out"], (" then " + obs["err"]) if obs["err"] else "",
                    exp[0], (" then " + exp[1]) if exp[1] else ""))
         return what, "%s.%s-order" % (lvl, meth)
@@ -462,8 +558,9 @@ def to_coq(case, obs):
         ages_t = "[]"
     else:
         ages_t = clist(["(%s, %s)" % (cz(i), cz(a if a is not None else 0)) for i, a in enumerate(ages)])
-    return "(mkCase tr_%d %s %s %s %s %s %s)" % (
-        case["tree_ix"], clist(["%d%%nat" % j for j in case["start"]]), ctor, filt, ages_t,
+    tree_t = "tr_%d" % case["tree_ix"] if case["tree_ix"] >= 0 and not case.get("hist") else trees.c_tree(case["tree"])
+    return "(mkCase %s %s %s %s %s %s %s)" % (
+        tree_t, clist(["%d%%nat" % j for j in case["start"]]), ctor, filt, ages_t,
         clist([cz(i) for i in obs["out"]]), copt(obs["err"]))
 
 
@@ -496,9 +593,9 @@ def search(ctx, budget_s):
     rng = random.Random(ctx.seed + 1515)
     n = 0
 
-    def try_tree(tree, starts, filt):
+    def try_tree(tree, starts, filt, hist=None):
         nonlocal n
-        for case in cases_for_tree(rng, tree, -1, starts, filt):
+        for case in cases_for_tree(rng, tree, -1, starts, filt, hist=hist):
             try:
                 obs = observe(case)
             except Exception as e:
@@ -514,10 +611,29 @@ def search(ctx, budget_s):
     for tree in small_trees():
         if try_tree(tree, all_paths(tree), None) or time.time() - t0 > budget_s:
             break
+    if not ctx.violations:
+        for tree, hist in fixed_histories(rng):
+            if try_tree(tree, all_paths(tree), None, hist=hist) or time.time() - t0 > budget_s:
+                break
     while not ctx.violations and time.time() - t0 < budget_s:
         tree = random_tree(rng, big=False)
-        try_tree(tree, sample_starts(rng, tree, 4), "random")
+        if rng.random() < 0.3:
+            tree, hist = make_history(rng, tree)
+            try_tree(tree, sample_starts(rng, tree, 3), "random", hist=hist)
+        else:
+            try_tree(tree, sample_starts(rng, tree, 4), "random")
     ctx.notes.append("search: %d iterator runs through the oracle, %d violation(s)" % (n, len(ctx.violations)))
+
+
+def fixed_histories(rng):
+    """small trees with an encoded, then outdated, bipartition encoding"""
+    b4 = renumber(trees.shape_to_tree([[[], []], [[], []]]))          # ((1,2),(4,5)) ids 0..6
+    b6 = renumber(trees.shape_to_tree([[[], []], [[[], []], [[], []]]]))
+    yield make_history(random.Random(1), b4, [["encode"], ["add", 6, None, True], ["add", 6, None, True]])
+    yield make_history(random.Random(2), b6, [["encode"], ["del", 2], ["del", 6]])
+    yield make_history(random.Random(3), b4, [["add", 0, None, False], ["add", 0, None, False], ["encode"]])
+    yield make_history(random.Random(4), b4, [["encode"], ["add", 0, None, False]])
+    yield make_history(random.Random(5), renumber(trees.shape_to_tree([])), [["encode"], ["add", 0, None, True]])
 
 
 def gen_overwritten():
@@ -540,10 +656,12 @@ def build_cases(ctx, tier):
     rng = ctx.rng
     tree_list, cases = [], []
 
-    def add(tree, starts, filt="random"):
+    def add(tree, starts, filt="random", hist=None):
         ix = len(tree_list)
         tree_list.append(tree)
-        cs = cases_for_tree(rng, tree, ix, starts, filt)
+        if hist is not None:
+            ctx.count("tree:with-bipartition-history")
+        cs = cases_for_tree(rng, tree, ix, starts, filt, hist=hist)
         cases.extend(cs)
         for tag in shape_label(tree):
             ctx.count("tree:" + tag)
@@ -558,6 +676,11 @@ def build_cases(ctx, tier):
         for _ in range(9):
             t = random_tree(rng, big=rng.random() < 0.3)
             add(t, sample_starts(rng, t, 3))
+        for t, hist in list(fixed_histories(rng))[:3]:
+            add(t, [[]], hist=hist)
+        for _ in range(3):
+            t, hist = make_history(rng, random_tree(rng, big=False))
+            add(t, sample_starts(rng, t, 2), hist=hist)
     else:
         for t in small_trees(5):
             add(t, all_paths(t))
@@ -565,6 +688,11 @@ def build_cases(ctx, tier):
         for _ in range(150):
             t = random_tree(rng, big=rng.random() < 0.4)
             add(t, sample_starts(rng, t, 6))
+        for t, hist in fixed_histories(rng):
+            add(t, all_paths(t), hist=hist)
+        for _ in range(40):
+            t, hist = make_history(rng, random_tree(rng, big=False))
+            add(t, sample_starts(rng, t, 4), hist=hist)
     for c in cases:
         ctx.count("kind:" + c["kind"])
         ctx.count("filter:" + ("none" if c["filter"] is None else "set"))
